@@ -1589,8 +1589,12 @@ func ruleWR1(c *Ctx) *rule {
 					}
 				}
 			}
-			if len(vals) == 0 || !rres.hasField(fk) {
-				r.bad(key, c.pos(f.Pos()), "the field never reaches the returned text")
+			if len(vals) == 0 {
+				r.bad(key, c.pos(f.Pos()), "the printer never reads the field: it cannot be in the returned text")
+				continue
+			}
+			if !rres.hasField(fk) {
+				r.undecided(key, c.pos(f.Pos()), "the field is read, but how it gets into the returned text is not followed (an iterator, a callback)")
 				continue
 			}
 			if _, isSlice := fld.Type().Underlying().(*types.Slice); !isSlice {
